@@ -40,6 +40,20 @@ theorem serve_rangeHeader (blob : Blob) (start : Nat) (len : Option Nat) (hlen :
     have h2 : start + l - 1 - start + 1 = l := by omega
     simp [serve, wanted, h1, h2]
 
+/-- the `Range` header the GCS client passes down reaches the wire unchanged through the credentials layer — with anonymous
+credentials (no auth headers at all), with a token, and on the retry after a 401 (each attempt applies `withAuth` to the same
+caller headers); auth headers never contain a `Range` entry -/
+theorem range_header_survives_session_layer (caller : Option Headers) (auth : List (String × String))
+    (hauth : auth.lookup "Range" = none) :
+    (withAuth caller auth).bind (· "Range") = caller.bind (· "Range") := by
+  unfold withAuth
+  split
+  · rfl
+  · simp [hauth]
+
+/-- anonymous credentials leave the request headers alone altogether -/
+theorem anonymous_credentials_keep_headers (caller : Option Headers) : withAuth caller [] = caller := rfl
+
 /-- the wanted bytes are clipped at the end of the blob -/
 theorem wanted_clipped (blob : Blob) (start l : Nat) (h : blob.length ≤ start + l) :
     wanted blob start (some l) = blob.drop start := by
